@@ -569,6 +569,11 @@ func runScripted(e *env, r *gen.Rand, npeers int, heights []int64, beh behaviour
 				servable = true
 			}
 		}
+		if servable && !delivered[wk.height] && npeers > 50 {
+			// more than 50 peers: the 50-try bound of downloadBlock may legitimately bind (Lean: event_needs_at_most_50_failing_peers)
+			out.Stat("undelivered_beyond_50_peer_bound", 1)
+			continue
+		}
 		if servable && !delivered[wk.height] && !wrongAccepted[wk.height] {
 			pred("C35|handleEventDownloadBlock|servable-height-not-delivered",
 				fmt.Sprintf("height %d is served by a peer but was not delivered (workers %d, peers %d)", wk.height, len(s.ws), npeers))
@@ -722,6 +727,21 @@ func main() {
 			}
 			return h
 		}, kk)
+	}
+	// 52 peers (latencies recorded in list order, so Sort keeps it), the first 51 fail, the last serves: both passes
+	// use up their 50 tries (Lean witness event_needs_at_most_50_failing_peers)
+	{
+		e52 := newEnv(52)
+		for i, id := range e52.peers {
+			e52.fh.Peerstore().RecordLatency(id, time.Duration(i+1)*time.Millisecond)
+		}
+		runScripted(e52, r, 52, []int64{7}, func(p int, h int64) int64 {
+			if p < 51 {
+				return -1
+			}
+			return h
+		}, func(f []int) int { return 0 }, 0, nil)
+		e52.w.Close()
 	}
 	// eight peers that all fail: eight tries, then "no peer" (well below the limit of 50 tries)
 	runScripted(e, r, 8, []int64{3}, func(p int, h int64) int64 { return -1 }, func(f []int) int { return 0 }, 0, nil)
